@@ -22,49 +22,49 @@ RICH = [
     procedure :: describe => {p}describe
   end type {p}shape
   abstract interface
-    function {p}area_if(self) result(a)
+    function {p}area_if({p}self) result({p}a)
       import :: {p}shape, real64
-      class({p}shape), intent(in) :: self
-      real(real64) :: a
+      class({p}shape), intent(in) :: {p}self
+      real(real64) :: {p}a
     end function {p}area_if
   end interface
   interface {p}area
     module procedure {p}area_r, {p}area_i
   end interface {p}area
 contains
-  subroutine {p}describe(self)
+  subroutine {p}describe({p}self)
     !! describe {p}tr3
-    class({p}shape), intent(in) :: self
-    print *, "shape", self%{p}scale ; print *, 'two; statements'
+    class({p}shape), intent(in) :: {p}self
+    print *, "shape", {p}self%{p}scale ; print *, 'two; statements'
   end subroutine {p}describe
-  function {p}area_r(x) result(a)
-    real(real64), intent(in) :: x
-    real(real64) :: a
-    a = x * &
-        x
+  function {p}area_r({p}x) result({p}a)
+    real(real64), intent(in) :: {p}x
+    real(real64) :: {p}a
+    {p}a = {p}x * &
+        {p}x
   end function {p}area_r
-  function {p}area_i(i) result(a)
-    integer, intent(in) :: i
-    integer :: a
-    select case (i)
+  function {p}area_i({p}i) result({p}a)
+    integer, intent(in) :: {p}i
+    integer :: {p}a
+    select case ({p}i)
     case (1)
-      a = 1
+      {p}a = 1
     case default
-      a = i * i
+      {p}a = {p}i * {p}i
     end select
   end function {p}area_i
-  subroutine {p}greet(name)
-    character(len=*), intent(in) :: name
-    integer :: i
-    do i = 1, 3
-      if (i == 2) then
-        call {p}inner(i)
+  subroutine {p}greet({p}name)
+    character(len=*), intent(in) :: {p}name
+    integer :: {p}i
+    do {p}i = 1, 3
+      if ({p}i == 2) then
+        call {p}inner({p}i)
       end if
     end do
   contains
-    subroutine {p}inner(k)
-      integer, intent(in) :: k
-      print *, name, k
+    subroutine {p}inner({p}k)
+      integer, intent(in) :: {p}k
+      print *, {p}name, {p}k
     end subroutine {p}inner
   end subroutine {p}greet
 end module {p}rich
@@ -76,32 +76,32 @@ end module {p}rich
   real, allocatable :: {p}arr(:)
   namelist /{p}nl/ {p}n
   interface
-    subroutine {p}ext(a)
-      real, intent(inout) :: a(:)
+    subroutine {p}ext({p}a)
+      real, intent(inout) :: {p}a(:)
     end subroutine {p}ext
   end interface
   {p}n = 4
   allocate({p}arr({p}n))
   {p}arr = [(real({p}i), {p}i = 1, {p}n)]
   call {p}ext({p}arr)
-  associate (s => sum({p}arr))
-    print '(a, f8.3)', "sum = ", s
+  associate ({p}s => sum({p}arr))
+    print '({p}a, f8.3)', "sum = ", {p}s
   end associate
   block
     integer :: {p}tmp
     {p}tmp = {p}helper(2)
   end block
 contains
-  integer function {p}helper(x)
-    integer, intent(in) :: x
-    {p}helper = x + 1
+  integer function {p}helper({p}x)
+    integer, intent(in) :: {p}x
+    {p}helper = {p}x + 1
   end function {p}helper
 end program {p}main
 
-subroutine {p}ext(a)
+subroutine {p}ext({p}a)
   !! external {p}tr5
-  real, intent(inout) :: a(:)
-  a = a * 2.0
+  real, intent(inout) :: {p}a(:)
+  {p}a = {p}a * 2.0
 end subroutine {p}ext
 """,
     """module {p}types
@@ -124,17 +124,17 @@ end subroutine {p}ext
     module procedure {p}opfun
   end interface
 contains
-  subroutine {p}cleanup(self)
-    type({p}child), intent(inout) :: self
+  subroutine {p}cleanup({p}self)
+    type({p}child), intent(inout) :: {p}self
   end subroutine {p}cleanup
-  subroutine {p}assign(lhs, rhs)
-    class({p}child), intent(out) :: lhs
-    class({p}child), intent(in) :: rhs
-    lhs%{p}id = rhs%{p}id
+  subroutine {p}assign({p}lhs, {p}rhs)
+    class({p}child), intent(out) :: {p}lhs
+    class({p}child), intent(in) :: {p}rhs
+    {p}lhs%{p}id = {p}rhs%{p}id
   end subroutine {p}assign
-  logical function {p}opfun(a, b)
-    type({p}base), intent(in) :: a, b
-    {p}opfun = a%{p}id == b%{p}id
+  logical function {p}opfun({p}a, {p}b)
+    type({p}base), intent(in) :: {p}a, {p}b
+    {p}opfun = {p}a%{p}id == {p}b%{p}id
   end function {p}opfun
 end module {p}types
 
@@ -158,7 +158,7 @@ MALFORMED = [
     "module {p}m\n type :: {p}t\n contains\n contains\n end type\nend module\n",
     "module {p}m\n interface\n interface\n end interface\nend module {p}m\n",
     "subroutine {p}s(\n",
-    "module {p}m\n integer :: x(\n end module {p}m\n",
+    "module {p}m\n integer :: {p}x(\n end module {p}m\n",
     "module {p}m\n character(len=10) :: c = 'unterminated\n end module {p}m\n",
     "module {p}m\n use\n end module {p}m\n",
     "function\n",
@@ -172,7 +172,7 @@ MALFORMED = [
     "submodule ({p}nowhere:{p}nothing) {p}sm\nend submodule\n",
     "module {p}m\n include '{p}missing.inc'\nend module {p}m\n",
     "interface\nend interface\ncontains\n",
-    "module {p}m\n type {p}t\n  procedure :: x\n end type\nend module\n",
+    "module {p}m\n type {p}t\n  procedure :: {p}x\n end type\nend module\n",
 ]
 
 
